@@ -753,7 +753,13 @@ class Sim:
             if callee_fn is None:
                 callee_fn = self.find_dp(c.get("resolved_dp") or c.get("dp"))
         if callee_fn is not None and depth < self.max_depth and self.inline(fn, callee_fn):
-            return self._inline(fn, env, bb, t, path, depth, callee_fn, args, cont)
+            cargs = args
+            if callee_fn.kind == "closure" and any(n in names for n in (
+                    "std::ops::Fn::call", "std::ops::FnMut::call_mut", "std::ops::FnOnce::call_once")) and len(args) == 2:
+                tup = self._deref(args[1], path)
+                if isinstance(tup, Tup):
+                    cargs = [args[0]] + list(tup.fields)
+            return self._inline(fn, env, bb, t, path, depth, callee_fn, cargs, cont)
         path.events.append(ev)
         return [cont(UNK)]
 
